@@ -939,11 +939,11 @@ func ExtractMeasuredDataCSV(scannerObserv *bufio.Scanner, g *GlobalVarsMain, Fid
 	tokens := Explode(headline, []rune{',', ';'})
 	headers := make(map[MeasurementHeader]int)
 
-	for kHeader, vHeader := range measurementHeaderNames {
-		for i, token := range tokens {
-			if token == kHeader {
+	// the first column that names a quantity (by any of its aliases) wins
+	for i, token := range tokens {
+		if vHeader, ok := measurementHeaderNames[token]; ok {
+			if _, exists := headers[vHeader]; !exists {
 				headers[vHeader] = i
-				break
 			}
 		}
 	}
